@@ -11,7 +11,7 @@ CLAIMS = {
     "C01": (
         "other",
         "def-use classification of every schedule-dependent observation (taint-style non-interference) over MIR; who-may-call; shared reader laws",
-        "Decides clause (ii) of the decomposition: every use of buf_len / buf / buf_ptr / is_at_end outside the reader has a sanctioned shape (fast/cold selector comparison, prefix slice up to a looked-at offset, use after the source was exhausted, end test after a look-ahead at offset 0); parser code calls no schedule-exposing reader method; Interrupted is retried inside request_more without touching state; position and mark are conserved by refills (C02 laws, re-run here). That the fast and cold implementations compute the same function is C13 / value-level; faithfulness of the window is C02. R5 (shared with C13-R3/R4): the byte-wise scanners' exact behaviour and the fast-path hand-over, since input that arrives in pieces takes the byte-wise path. R6: the byte-wise keyword scan is a prefix scan like the word kernel - on its iteration graph, after an iteration that recorded no letter no later one can record one (the stop flag is followed as a constant through the variables the closure captured). R3 also: an Interrupted answer always leads back to the read (nothing else is reachable from the true edge of the kind test). R7 (shared with C02-R9): no construction path installs a chunk size that is not provably positive. R5 also runs C13-R1/R1b: the byte-wise scanners' overflow verdict (every step through overflowing_*, None exactly when a step overflowed) is the one the one-piece path gives.",
+        "Decides clause (ii) of the decomposition: every use of buf_len / buf / buf_ptr / is_at_end outside the reader has a sanctioned shape (fast/cold selector comparison, prefix slice up to a looked-at offset, use after the source was exhausted, end test after a look-ahead at offset 0); parser code calls no schedule-exposing reader method; Interrupted is retried inside request_more without touching state; position and mark are conserved by refills (C02 laws, re-run here). That the fast and cold implementations compute the same function is C13 / value-level; faithfulness of the window is C02. R5 (shared with C13-R3/R4): the byte-wise scanners' exact behaviour and the fast-path hand-over, since input that arrives in pieces takes the byte-wise path. R6: the byte-wise keyword scan is a prefix scan like the word kernel - on its iteration graph, after an iteration that recorded no letter no later one can record one (the stop flag is followed as a constant through the variables the closure captured). R3 also: an Interrupted answer always leads back to the read (nothing else is reachable from the true edge of the kind test). R7 (shared with C02-R9): no construction path installs a chunk size that is not provably positive. R5 also runs C13-R1/R1b: the byte-wise scanners' overflow verdict (every step through overflowing_*, None exactly when a step overflowed) is the one the one-piece path gives. R8 (shared with C02-R3): the source is offered exactly chunk_size bytes behind the window on every read.",
         "DESIGN.md §4 C01",
     ),
     "C02": (
@@ -47,7 +47,7 @@ CLAIMS = {
     "C07": (
         "other",
         "interprocedural typestate analysis over MIR (blank-normal form of the cursor, path-sensitive abstract interpretation with summaries); exact byte-class extraction for the end-of-word test; CFG loop / dominance rules and sibling cross-check for the statement dispatch",
-        "Equality of the values parsed from two renderings of one formula is a runtime relation and is not decided. Decided are the structural necessary conditions the layout freedoms rest on: (1) on every path from every cnf/wcnf/gcnf/solver-log entry point, a token parser that decides on the byte at the cursor is attempted only when the cursor cannot stand on a space or tab (everything consumed was consumed together with its trailing blanks, or skip_whitespace ran) - any amount of blanks between tokens, at line ends and at line starts; (2) a word ends exactly before space, tab, CR, LF or end of input; (3) in all three statement loops and header prologues comment lines and blank lines are alternatives whose success continues the loop, identically in the three siblings; (4) every required line end is `newline or end of input`; (5) inside a clause, and between weight/group and literals, the line-break-and-comments skipper is tried before an error is raised, and it loops over comments and newlines. LF/CRLF is text::newline's class (C16-R3); numeral spelling (leading zeros, -0) is value-level (C13). R7: a scan that starts at a constant offset K > 0 steps over examined bytes only - each matched against a byte other than a line feed on the way, nothing consumed in between. R8 (shared with C08-R1): errors for tokens on a continuation line are located from a mark set on that line. R9 (shared with C13-R1b/R3): the digit scanners pass over every digit of a numeral and report its exact value or overflow, however it is spelled. R10: ignore_unknown_lines is stored by its own setter only. R4 accepts the explicit `match newline { Fallthrough => eof, parsed => parsed }` form of the line end.",
+        "Equality of the values parsed from two renderings of one formula is a runtime relation and is not decided. Decided are the structural necessary conditions the layout freedoms rest on: (1) on every path from every cnf/wcnf/gcnf/solver-log entry point, a token parser that decides on the byte at the cursor is attempted only when the cursor cannot stand on a space or tab (everything consumed was consumed together with its trailing blanks, or skip_whitespace ran) - any amount of blanks between tokens, at line ends and at line starts; (2) a word ends exactly before space, tab, CR, LF or end of input; (3) in all three statement loops and header prologues comment lines and blank lines are alternatives whose success continues the loop, identically in the three siblings; (4) every required line end is `newline or end of input`; (5) inside a clause, and between weight/group and literals, the line-break-and-comments skipper is tried before an error is raised, and it loops over comments and newlines. LF/CRLF is text::newline's class (C16-R3); numeral spelling (leading zeros, -0) is value-level (C13). R7: a scan that starts at a constant offset K > 0 steps over examined bytes only - each matched against a byte other than a line feed on the way, nothing consumed in between. R8 (shared with C08-R1): errors for tokens on a continuation line are located from a mark set on that line. R9 (shared with C13-R1b/R3): the digit scanners pass over every digit of a numeral and report its exact value or overflow, however it is spelled. R10: ignore_unknown_lines is stored by its own setter only. R4 accepts the explicit `match newline { Fallthrough => eof, parsed => parsed }` form of the line end. R11 (shared with C02-R3/R4): refills append to the window, realigning and shrinking keep it (long comment lines and blank runs).",
         "DESIGN.md §13",
     ),
     "C08": (
@@ -71,7 +71,7 @@ CLAIMS = {
     "C11": (
         "other",
         "who-may-call, guard dominance, post-dominance and linear-use (affine path execution) rules over the writer's MIR",
-        "Decides for every path of the writer's methods: the sink is called from two sites only, only while no error is parked, inside the panicked bracket, its error is parked; every flush clears the buffer and writes the whole buffer; in the cold path each part of the input is buffered or written exactly once in order (split at capacity - len); the error is taken exactly once and Write::flush reports it; drop flushes unless a sink write panicked; the integer fast path advances by the written length. Canonical decimal text (itoap) and std's write_all loop are trusted. R4 also: Write::write hands its whole input on and reports its full length (the integer slow path calls it once and ignores the count). R6 also: both paths of ascii_digits receive the caller's value unchanged. R8: the answer of every call that takes the parked error out (check_io_error, Write::flush on the writer) is handed on or examined, never dropped; silent flushes come from the cold write path, Write::flush and drop only.",
+        "Decides for every path of the writer's methods: the sink is called from two sites only, only while no error is parked, inside the panicked bracket, its error is parked; every flush clears the buffer and writes the whole buffer; in the cold path each part of the input is buffered or written exactly once in order (split at capacity - len); the error is taken exactly once and Write::flush reports it; drop flushes unless a sink write panicked; the integer fast path advances by the written length. Canonical decimal text (itoap) and std's write_all loop are trusted. R4 also: Write::write hands its whole input on and reports its full length (the integer slow path calls it once and ignores the count). R6 also: both paths of ascii_digits receive the caller's value unchanged. R8: the answer of every call that takes the parked error out (check_io_error, Write::flush on the writer) is handed on or examined, never dropped; silent flushes come from the cold write path, Write::flush and drop only. R9: the debug assertion of advance_unchecked is implied by the contract buf_write_ptr establishes (old_len + n <= capacity, also for an exact fill), and the length it sets is old_len + n (affine path execution).",
         "DESIGN.md §4 C11",
     ),
     "C12": (
